@@ -329,6 +329,7 @@ type world struct {
 	stores []*tstore // index 0 = the access-control store
 	ghost  string    // a store id that never existed
 	uniq   int
+	mid    *string // probes: the authorization model id to put into the request (nil = default)
 }
 
 func (w *world) ctxFor(id identity) context.Context {
@@ -365,6 +366,7 @@ type desc struct {
 	ScenSeed uint64 `json:"scen_seed"`
 	Backend  string `json:"backend"`
 	Identity string `json:"identity"`
+	Handler  string `json:"handler,omitempty"`
 	NT       bool   `json:"nt"`
 }
 
@@ -506,23 +508,32 @@ func (w *world) callHandler(ctx context.Context, h string, s *tstore) error {
 	sub := &authzenv1.Subject{Type: "user", Id: "u"}
 	res := &authzenv1.Resource{Type: "core", Id: "1"}
 	act := &authzenv1.Action{Name: "member"}
+	mid, amid := "", s.modelID // optional model id (default: latest) / required model id
+	if w.mid != nil {
+		mid, amid = *w.mid, *w.mid
+	}
 	switch h {
+	case "Write":
+		w.uniq++
+		_, err := srv.Write(ctx, &openfgav1.WriteRequest{StoreId: s.id, AuthorizationModelId: mid,
+			Writes: &openfgav1.WriteRequestWrites{TupleKeys: []*openfgav1.TupleKey{tuple.NewTupleKey(fmt.Sprintf("core:p%d", w.uniq), "member", "user:u")}, OnDuplicate: "ignore"}})
+		return err
 	case "Check":
-		_, err := srv.Check(ctx, &openfgav1.CheckRequest{StoreId: s.id, TupleKey: ckKey})
+		_, err := srv.Check(ctx, &openfgav1.CheckRequest{StoreId: s.id, AuthorizationModelId: mid, TupleKey: ckKey})
 		return err
 	case "BatchCheck":
-		_, err := srv.BatchCheck(ctx, &openfgav1.BatchCheckRequest{StoreId: s.id, Checks: []*openfgav1.BatchCheckItem{{TupleKey: ckKey, CorrelationId: "a"}}})
+		_, err := srv.BatchCheck(ctx, &openfgav1.BatchCheckRequest{StoreId: s.id, AuthorizationModelId: mid, Checks: []*openfgav1.BatchCheckItem{{TupleKey: ckKey, CorrelationId: "a"}}})
 		return err
 	case "Expand":
-		_, err := srv.Expand(ctx, &openfgav1.ExpandRequest{StoreId: s.id, TupleKey: &openfgav1.ExpandRequestTupleKey{Relation: "member", Object: "core:1"}})
+		_, err := srv.Expand(ctx, &openfgav1.ExpandRequest{StoreId: s.id, AuthorizationModelId: mid, TupleKey: &openfgav1.ExpandRequestTupleKey{Relation: "member", Object: "core:1"}})
 		return err
 	case "ListObjects":
-		_, err := srv.ListObjects(ctx, &openfgav1.ListObjectsRequest{StoreId: s.id, Type: "core", Relation: "member", User: "user:u"})
+		_, err := srv.ListObjects(ctx, &openfgav1.ListObjectsRequest{StoreId: s.id, AuthorizationModelId: mid, Type: "core", Relation: "member", User: "user:u"})
 		return err
 	case "StreamedListObjects":
-		return srv.StreamedListObjects(&openfgav1.StreamedListObjectsRequest{StoreId: s.id, Type: "core", Relation: "member", User: "user:u"}, &streamStub{ctx: ctx})
+		return srv.StreamedListObjects(&openfgav1.StreamedListObjectsRequest{StoreId: s.id, AuthorizationModelId: mid, Type: "core", Relation: "member", User: "user:u"}, &streamStub{ctx: ctx})
 	case "ListUsers":
-		_, err := srv.ListUsers(ctx, &openfgav1.ListUsersRequest{StoreId: s.id, Object: &openfgav1.Object{Type: "core", Id: "1"}, Relation: "member",
+		_, err := srv.ListUsers(ctx, &openfgav1.ListUsersRequest{StoreId: s.id, AuthorizationModelId: mid, Object: &openfgav1.Object{Type: "core", Id: "1"}, Relation: "member",
 			UserFilters: []*openfgav1.UserTypeFilter{{Type: "user"}}})
 		return err
 	case "Read":
@@ -532,14 +543,14 @@ func (w *world) callHandler(ctx context.Context, h string, s *tstore) error {
 		_, err := srv.ReadChanges(ctx, &openfgav1.ReadChangesRequest{StoreId: s.id})
 		return err
 	case "ReadAssertions":
-		_, err := srv.ReadAssertions(ctx, &openfgav1.ReadAssertionsRequest{StoreId: s.id, AuthorizationModelId: s.modelID})
+		_, err := srv.ReadAssertions(ctx, &openfgav1.ReadAssertionsRequest{StoreId: s.id, AuthorizationModelId: amid})
 		return err
 	case "WriteAssertions":
-		_, err := srv.WriteAssertions(ctx, &openfgav1.WriteAssertionsRequest{StoreId: s.id, AuthorizationModelId: s.modelID,
+		_, err := srv.WriteAssertions(ctx, &openfgav1.WriteAssertionsRequest{StoreId: s.id, AuthorizationModelId: amid,
 			Assertions: []*openfgav1.Assertion{{TupleKey: &openfgav1.AssertionTupleKey{User: "user:u", Relation: "member", Object: "core:1"}, Expectation: false}}})
 		return err
 	case "ReadAuthorizationModel":
-		_, err := srv.ReadAuthorizationModel(ctx, &openfgav1.ReadAuthorizationModelRequest{StoreId: s.id, Id: s.modelID})
+		_, err := srv.ReadAuthorizationModel(ctx, &openfgav1.ReadAuthorizationModelRequest{StoreId: s.id, Id: amid})
 		return err
 	case "ReadAuthorizationModels":
 		_, err := srv.ReadAuthorizationModels(ctx, &openfgav1.ReadAuthorizationModelsRequest{StoreId: s.id})
@@ -595,6 +606,15 @@ var handlerMethod = [][2]string{
 	{"Evaluation", "Check"}, {"Evaluations", "Check"}, {"Evaluations#batch", "BatchCheck"},
 	{"SubjectSearch", "ListUsers"}, {"ResourceSearch", "StreamedListObjects"}, {"ActionSearch", "BatchCheck"},
 	{"GetConfiguration", ""},
+}
+
+// which relation to ask the control store about, per API method (the oracle uses its own table)
+var relationOfMethod = map[string]string{
+	"ReadAuthorizationModel": "can_call_read_authorization_models", "ReadAuthorizationModels": "can_call_read_authorization_models",
+	"Read": "can_call_read", "Write": "can_call_write", "ListObjects": "can_call_list_objects", "StreamedListObjects": "can_call_list_objects",
+	"Check": "can_call_check", "BatchCheck": "can_call_check", "ListUsers": "can_call_list_users", "WriteAssertions": "can_call_write_assertions",
+	"ReadAssertions": "can_call_read_assertions", "WriteAuthorizationModel": "can_call_write_authorization_models",
+	"GetStore": "can_call_get_store", "DeleteStore": "can_call_delete_store", "Expand": "can_call_expand", "ReadChanges": "can_call_read_changes",
 }
 
 var mutating = map[string]bool{"WriteAssertions": true, "WriteAuthorizationModel": true}
@@ -899,6 +919,72 @@ func runScenario(wr *rec.Writer, scenSeed uint64, backend string) {
 			p.lists = append(p.lists, rec.L(rec.S(variant.name), rec.I(cl), rec.LS(got), rec.LS(idsSeen)))
 		}
 	}
+	// probes: an UNAUTHORISED caller against target stores in the states that make work done
+	// before the authorization decision observable: a store with a model, a store without any
+	// model, a store id that never existed; requests naming the latest model, a well-formed model
+	// id that does not exist, a malformed model id.  The answer must be the same forbidden answer
+	// whatever the state of the target store (or the same request-validation answer), and
+	// nothing of the target store may be read or put into the response headers.
+	{
+		ghostStore := &tstore{id: w.ghost, name: "ghost", canon: "ghost", modelID: storehist.NewULID()}
+		bareStore := w.stores[len(w.stores)-1]
+		states := []*tstore{w.stores[1], bareStore, ghostStore}
+		unknownModel, malformed := storehist.NewULID(), "not-a-ulid"
+		withModelID := map[string]bool{"Write": true, "Check": true, "BatchCheck": true, "Expand": true, "ListObjects": true,
+			"StreamedListObjects": true, "ListUsers": true, "ReadAssertions": true, "WriteAssertions": true, "ReadAuthorizationModel": true}
+		probeHandlers := append([][2]string{{"Write", "Write"}, {"DeleteStore", "DeleteStore"}}, handlerMethod...)
+		for _, pid := range []identity{{Label: "noclaims", NoClaims: true}, {Label: "stranger", ClientID: "stranger"}} {
+			for _, hm := range probeHandlers {
+				var grantsV []rec.V
+				if !pid.NoClaims && hm[1] != "" {
+					rel := relationOfMethod[hm[1]]
+					for _, st := range states {
+						res := w.grant(pid.ClientID, rel, "store:"+st.id, []*openfgav1.TupleKey{sysTuple(st.id)})
+						grantsV = append(grantsV, rec.L(rec.S(rel), rec.I(1), rec.S(st.canon), rec.S(""), rec.I(res)))
+					}
+				}
+				variants := []struct {
+					label string
+					mid   *string
+				}{{"default", nil}}
+				if withModelID[hm[0]] {
+					variants = append(variants, struct {
+						label string
+						mid   *string
+					}{"unknown-model-id", &unknownModel}, struct {
+						label string
+						mid   *string
+					}{"malformed-model-id", &malformed})
+				}
+				var probesV []rec.V
+				for _, v := range variants {
+					var answers []rec.V
+					for _, st := range states {
+						w.mid = v.mid
+						c := w.doCall(pid, hm[0], hm[1], st)
+						w.mid = nil
+						answers = append(answers, rec.L(rec.S(st.canon), rec.I(c.class), rec.I(c.code), rec.Bool(c.touched), rec.I(c.headers)))
+						wr.Stat("probe_calls", 1)
+						wr.Stat(fmt.Sprintf("probe_class_%d", c.class), 1)
+					}
+					probesV = append(probesV, rec.L(rec.S(v.label), rec.L(answers...)))
+				}
+				claimsState := 1
+				if pid.NoClaims {
+					claimsState = 0
+				}
+				var stV []rec.V
+				for _, st := range states {
+					stV = append(stV, rec.L(rec.S(st.canon), rec.S(st.name)))
+				}
+				wr.Case(desc{Kind: "probe", ScenSeed: scenSeed, Backend: backend, Identity: pid.Label, Handler: hm[0], NT: true},
+					rec.I(5), rec.I(claimsState), rec.S(pid.ClientID), rec.L(stV...), rec.L(grantsV...), rec.L(rec.I(1)),
+					rec.S(hm[0]), rec.S(hm[1]), rec.L(probesV...))
+				wr.Stat("probe_records", 1)
+			}
+		}
+	}
+
 	// phase 3: CreateStore, then DeleteStore (stores disappear, so this comes last)
 	orig := append([]*tstore{}, w.stores...)
 	for pi, p := range all {
@@ -1049,7 +1135,7 @@ func main() {
 				continue
 			}
 			var d desc
-			if json.Unmarshal([]byte(line), &d) != nil || d.Kind != "identity" {
+			if json.Unmarshal([]byte(line), &d) != nil || (d.Kind != "identity" && d.Kind != "probe") {
 				continue
 			}
 			key := fmt.Sprintf("%d/%s", d.ScenSeed, d.Backend)
